@@ -29,7 +29,11 @@ RULE = (
     "is asked with the declared (final) table only, because the law speaks of the declared versions, not of when "
     "they were declared (every subset and order of the key alphabet x every single request x way/part/moment "
     "cycling, on the child's own or the inherited parent's table; a quarter of the hierarchy cases; 28% of the "
-    "random tables). non-trivial = the table is "
+    "random tables). Programs that change the tables BETWEEN selections: a step may assign a whole version table "
+    "on a class, add / re-bind / delete a key of the table a class sees (its own or the parent's it inherits) in "
+    "place, or assign the component list; the model runs the same program (Spec.C19.progTrace: every selection "
+    "reads the table as it is when it is made, Props.C19.main_prog), on a grid of request pairs x eight kinds of "
+    "change and in three random cases out of ten. non-trivial = the table is "
     "not empty; distinct by full case."
 )
 ASSUMPTIONS = ["single inheritance class trio (parent, child, sibling); version keys are str"]
@@ -188,7 +192,24 @@ def run_impl(case):
         trace, used = [], []
         finish("all")
         warm = warm_possible(case)
-        for c, v in case["ops"]:
+        for op in case["ops"]:
+            if is_change(op):
+                # the program changes a table or a list between two selections (ordinary class attributes)
+                finish("warm")
+                warm = False
+                c = op[1]
+                if op[0] == "assign":
+                    classes[c].VERSIONS = {codec.dec_str(k): lists[v] for k, v in op[2]}
+                elif op[0] == "set":
+                    classes[c].VERSIONS[codec.dec_str(op[2])] = lists[op[3]]
+                elif op[0] == "del":
+                    classes[c].VERSIONS.pop(codec.dec_str(op[2]), None)
+                elif op[0] == "active":
+                    setattr(classes[c], attr, lists[op[2]])
+                trace.append([which(lists, getattr(k, attr), comps) for k in classes])
+                used.append(None)
+                continue
+            c, v = op
             if not (warm and len(v) == 0):
                 finish("warm")  # leading selections with the empty request string run on the unfinished table
                 warm = False
@@ -200,6 +221,25 @@ def run_impl(case):
         return codec.enc_exc(e)
 
 
+def is_change(op):
+    """a step of the program other than a selection: ["assign", cls, table] (VERSIONS = {...} on the class),
+    ["set", cls, key, id] (VERSIONS[key] = list), ["del", cls, key], ["active", cls, id] (the component list assigned)"""
+    return isinstance(op[0], str)
+
+
+def show_op(op):
+    if not is_change(op):
+        return ("PCS"[op[0]], codec.dec_str(op[1]))
+    c = "PCS"[op[1]]
+    if op[0] == "assign":
+        return f"{c}.VERSIONS = {[(codec.dec_str(k), v) for k, v in op[2]]}"
+    if op[0] == "set":
+        return f"{c}.VERSIONS[{codec.dec_str(op[2])!r}] = list {op[3]}"
+    if op[0] == "del":
+        return f"{c}.VERSIONS.pop({codec.dec_str(op[2])!r}, None)"
+    return f"{c}.<component list> = list {op[2]}"
+
+
 def request(case, obs):
     if "harness_exc" in obs:
         obs = {"exc": "harness"}
@@ -208,7 +248,7 @@ def request(case, obs):
 
 def show_case(case):
     tb = [None if t is None else [(codec.dec_str(k), v) for k, v in t] for t in case["tables"]]
-    txt = f"tables(parent,child,sibling)={tb} init={case['init']} selections={[('PCS'[c], codec.dec_str(v)) for c, v in case['ops']]}"
+    txt = f"tables(parent,child,sibling)={tb} init={case['init']} program={[show_op(op) for op in case['ops']]}"
     for i, l in enumerate(late_of(case)):
         if l:
             body = None if l.get("body") is None else [(codec.dec_str(k), v) for k, v in l["body"]]
@@ -229,7 +269,10 @@ def judge(case, obs, resp):
         return {"status": "oracle", "why": f"set_version/read raised {obs['exc']}: {obs.get('msg')}"}
     if not resp["holds"]:
         return {"status": "oracle", "why": f"{show_case(case)}: active lists (parent, child, sibling) after each selection {obs['trace']}; required {resp['model']}"}
-    for (c, v), row, u in zip(case["ops"], obs["trace"], obs["used"]):
+    for op, row, u in zip(case["ops"], obs["trace"], obs["used"]):
+        if is_change(op):
+            continue
+        c = op[0]
         want = [] if row[c] is None else [row[c]]
         if u != want:
             return {"status": "oracle", "why": f"{show_case(case)}: File.read used component types {u} while list {row[c]} is active"}
@@ -244,7 +287,12 @@ def nontrivial(case):
 
 def features(case, obs):
     f = [f"family={case['family']}", f"nkeys={len(case['tables'][1] or [])}", f"nselections={len(case['ops'])}"]
-    for c, v in case["ops"]:
+    changes = [op for op in case["ops"] if is_change(op)]
+    for op in changes:
+        f.append("between_selections=" + op[0])
+    if changes:
+        f.append("program_changes_tables")
+    for c, v in [op for op in case["ops"] if not is_change(op)]:
         t = case["tables"][c] if case["tables"][c] is not None else case["tables"][0]
         keys = sorted(codec.dec_str(k) for k, _ in (t or []))
         v = codec.dec_str(v)
@@ -357,6 +405,61 @@ def late_cases(family):
                                    "ops": [[1, codec.enc_str(v)] for v in ops]}
 
 
+def with_changes(case, rng, n):
+    """inserts n changes of the tables / lists at random places of the program (not before the first step of a
+    case whose tables are completed late). An in-place edit is made only where the class sees a table of its own
+    or of the parent (never the framework's own empty dict, which every file class of the process shares)."""
+    ops = list(case["ops"])
+    has = [t is not None for t in case["tables"]]  # which classes have VERSIONS bound on themselves
+    pool = KEYS + ["v3", "v1.1", "a"]
+    out = []
+    places = sorted(rng.randrange(0, len(ops) + 1) for _ in range(n))
+    j = 0
+    for i in range(len(ops) + 1):
+        while j < len(places) and places[j] == i:
+            j += 1
+            c = rng.choice([1, 1, 0, 2])
+            sees = has[c] or (c != 0 and has[0])
+            kind = rng.choice(["assign", "set", "set", "del", "active"]) if sees else rng.choice(["assign", "assign", "active"])
+            if kind == "assign":
+                out.append(["assign", c, [[codec.enc_str(k), rng.randrange(0, 8)] for k in rng.sample(pool, rng.randrange(0, 4))]])
+                has[c] = True
+            elif kind == "set":
+                out.append(["set", c, codec.enc_str(rng.choice(pool)), rng.randrange(0, 8)])
+            elif kind == "del":
+                out.append(["del", c, codec.enc_str(rng.choice(pool))])
+            else:
+                out.append(["active", c, rng.randrange(0, 8)])
+        if i < len(ops):
+            out.append(ops[i])
+    return {**{k: v for k, v in case.items() if k != "late"}, "ops": out}
+
+
+def program_cases(family):
+    """a table changed BETWEEN two selections that both find a key: every pair of requests x the ways of changing
+    the table the second selection reads (a new table assigned on the class, a key added in place, a key deleted, a
+    key re-bound), on the child's own table and on the parent's table the child inherits"""
+    base = [[codec.enc_str("v1"), 1], [codec.enc_str("v2"), 2]]
+    changes = [
+        lambda c: ["assign", c, [[codec.enc_str("v1"), 3], [codec.enc_str("v1.5"), 4]]],
+        lambda c: ["assign", c, []],
+        lambda c: ["set", c, codec.enc_str("v1.5"), 4],
+        lambda c: ["set", c, codec.enc_str("v2"), 6],
+        lambda c: ["set", c, codec.enc_str("v0"), 3],
+        lambda c: ["del", c, codec.enc_str("v2")],
+        lambda c: ["del", c, codec.enc_str("v1")],
+        lambda c: ["active", c, 6],
+    ]
+    reqs = ["v0", "v1", "v1.5", "v1.7", "v2", "v9"]
+    for own in (True, False):
+        tables = [None, base, None] if own else [base, None, None]
+        for ch in changes:
+            for who in ((1,) if own else (0, 1)):
+                for v1 in reqs:
+                    for v2 in reqs:
+                        yield {"family": family, "tables": tables, "init": [6, 0, 7], "ops": [[1, codec.enc_str(v1)], ch(who), [1, codec.enc_str(v2)], [0, codec.enc_str(v2)], [2, codec.enc_str(v1)]]}
+
+
 def random_case(rng):
     pool = KEYS + ["v3", "V1", "v", "1", "v1 ", "latest", "1.0"]
 
@@ -371,6 +474,8 @@ def random_case(rng):
         case["late"] = [late_variant(t, rng.choice(HOWS), rng.randrange(0, 4), rng.choice(ATS)) if (t is not None and rng.random() < 0.7) else None for t in case["tables"]]
         if any(l and l["at"] == "warm" for l in case["late"]) and rng.random() < 0.7:
             case["ops"] = [[rng.choice([0, 1, 2]), []] for _ in range(rng.randrange(1, 3))] + ops
+    elif rng.random() < 0.5:  # the program changes tables / lists between its selections
+        case = with_changes(case, rng, rng.randrange(1, 4))
     return case
 
 
@@ -392,6 +497,7 @@ def chunks(tier, seed):
             ch.append({"kind": "exh", "family": fam, "maxseq": maxseq if fam == "register" else max(1, maxseq - 1), "part": p, "of": 4})
         ch.append({"kind": "hier", "family": fam})
         ch.append({"kind": "late", "family": fam})
+        ch.append({"kind": "prog", "family": fam})
     nrand = {"quick": 2000, "thorough": 160000}.get(tier, 6000)
     for i in range(4):
         ch.append({"kind": "random", "seed": seed * 1000 + i, "n": nrand // 4})
@@ -405,6 +511,8 @@ def cases_of(chunk):
         yield from hierarchy_cases(chunk["family"])
     elif chunk["kind"] == "late":
         yield from late_cases(chunk["family"])
+    elif chunk["kind"] == "prog":
+        yield from program_cases(chunk["family"])
     elif chunk["kind"] == "exh":
         for i, c in enumerate(exhaustive_cases(chunk["family"], chunk["maxseq"])):
             if i % chunk["of"] == chunk["part"]:
@@ -427,6 +535,10 @@ def shrinks(case):
                 tt = list(case["tables"])
                 tt[c] = t[:i] + t[i + 1 :]
                 yield {**case, "tables": tt}
+    for i, op in enumerate(r):
+        if is_change(op) and op[0] == "assign":
+            for j in range(len(op[2])):
+                yield {**case, "ops": r[:i] + [["assign", op[1], op[2][:j] + op[2][j + 1 :]]] + r[i + 1 :]}
     late = late_of(case)
     if any(late):
         yield {k: v for k, v in case.items() if k != "late"}
